@@ -352,8 +352,10 @@ pub fn run_c13(env: &Env) -> Report {
     let sets = settings(Some(true));
     let seed = env.a.seed;
     let maxlen = if env.quick() { 4 } else { 5 };
-    let reps = par_map(sets.len() * 2, |ui| {
-        let o = sets[ui / 2]; let half = ui % 2;
+    let reps = par_map(sets.len() * 4, |ui| {
+        // … each also with the old vowel-sign order on: a left-standing sign then WAITS while the reph key is pressed; the reph
+        // still goes where the composed text (without the waiting sign) says
+        let mut o = sets[ui / 4]; let half = ui % 2; o.kar_order = (ui / 2) % 2 == 1;
         let mut rep = Report::new("c13");
         let xdg = env.fresh_xdg(&format!("c13-{}", ui));
         let mut t = env.trace(&format!("c13.{}", ui));
